@@ -572,7 +572,7 @@ class Prop:
 
 def reason_key(r):
     """failure kind: the reason with numbers / hex abstracted, cut at the first detail"""
-    return re.sub(r"[0-9a-f]{6,}|\d+", "N", r.split(":")[0])[:48]
+    return re.sub(r"[0-9a-f]{6,}|\d+", "N", r.split(":")[0])[:64]
 
 
 def shrink(prop, case, still_fails, workdir, budget=12, seconds=45):
